@@ -121,6 +121,17 @@ Step(s, n, k, W) ==
            ELSE [s EXCEPT !.pc = "search"]
       [] OTHER -> s
 
+(* BinaryReader.LabelValues: scan the on-disk table from the first sampled entry until the value  *)
+(* of the last sampled entry has been read (d = table position, acc = values so far; running past  *)
+(* the label's entries is an error).                                                                 *)
+RECURSIVE LabelValuesFrom(_, _, _, _)
+LabelValuesFrom(d, lastVal, n, acc) ==
+    IF d > n THEN [err |-> TRUE, vals |-> acc]
+    ELSE IF Val(d) = lastVal THEN [err |-> FALSE, vals |-> Append(acc, Val(d))]
+    ELSE LabelValuesFrom(d + 1, lastVal, n, Append(acc, Val(d)))
+AlgoLabelValues(n, k) ==
+    LET offs == Offsets(n, k) IN LabelValuesFrom(offs[1].idx, offs[Len(offs)].value, n, <<>>)
+
 RECURSIVE RunFrom(_, _, _, _)
 RunFrom(s, n, k, W) == IF s.pc = "done" THEN s ELSE RunFrom(Step(s, n, k, W), n, k, W)
 (* the algorithm's answer for the abstract table: the ranges, or <<>> with err *)
